@@ -1,28 +1,22 @@
-(* RadixKernels.v — the routines of other areas called by the radix code.
-   PROVISIONAL: until Mul.v / Div.v / BitDigits.v are merged, each kernel is the Z-level
-   SPECIFICATION of the routine it stands for (not a model of its code).  After the merge
-   this file binds the real models (see docs/notes/radix.md):
-     k_mac      := Mul.mac_with_carry
-     k_mul p    := Mul.umul (rp_mul p)
-     k_divrem p := Div.udivrem (rp_div p)
+(* RadixKernels.v — the routines of other areas called by the radix code, bound to the models
+   of those areas:
+     k_divrem p := Div.udivrem (rp_div p)         `digits.div_rem(&big_base)`
      k_divdig   := Div.div_rem_digit
-     k_from_bits / k_from_inexact / k_to_bits / k_to_inexact := BitDigits.* *)
-From BigNum Require Import Base AddSub Radix SpecRadix.
+     k_from_bits / k_from_inexact / k_to_bits / k_to_inexact := BitDigits.*_digits_le
+   PROVISIONAL (Mul.v not merged yet): k_mac and k_mul are the Z-level SPECIFICATION of
+   `mac_with_carry` and of `&BigUint * &BigUint`, not models of their code; to be rebound to
+   Mul.mac_with_carry and Mul.umul (rp_mul p), see docs/notes/radix.md. *)
+From BigNum Require Import Base AddSub Div BitDigits Radix.
 Open Scope Z_scope.
 
 Definition k_mac (p : radix_params) (a b c acc : Z) : outcome (Z * Z) :=
   let s := acc + a + b * c in Ret (s mod B, s / B).
 Definition k_mul (p : radix_params) (a b : list Z) : outcome (list Z) :=
   Ret (enc (val a * val b)).
-Definition k_divrem (p : radix_params) (a b : list Z) : outcome (list Z * list Z) :=
-  if val b =? 0 then Panic DivZero else Ret (enc (val a / val b), enc (val a mod val b)).
-Definition k_divdig (p : radix_params) (a : list Z) (b : Z) : outcome (list Z * Z) :=
-  if b =? 0 then Panic DivZero else Ret (enc (val a / b), val a mod b).
-Definition k_from_bits (p : radix_params) (v : list Z) (bits : Z) : outcome (list Z) :=
-  Ret (enc (dsum (2 ^ bits) v)).
-Definition k_from_inexact (p : radix_params) (v : list Z) (bits : Z) : outcome (list Z) :=
-  Ret (enc (dsum (2 ^ bits) v)).
-Definition k_to_bits (p : radix_params) (u : list Z) (bits : Z) : outcome (list Z) :=
-  Ret (digits_le (2 ^ bits) (val u)).
-Definition k_to_inexact (p : radix_params) (u : list Z) (bits : Z) : outcome (list Z) :=
-  Ret (digits_le (2 ^ bits) (val u)).
+Definition k_divrem (p : radix_params) : list Z -> list Z -> outcome (list Z * list Z) :=
+  udivrem (rp_div p).
+Definition k_divdig (p : radix_params) : list Z -> Z -> outcome (list Z * Z) := div_rem_digit.
+Definition k_from_bits (p : radix_params) := from_bitwise_digits_le.
+Definition k_from_inexact (p : radix_params) := from_inexact_bitwise_digits_le.
+Definition k_to_bits (p : radix_params) := to_bitwise_digits_le.
+Definition k_to_inexact (p : radix_params) := to_inexact_bitwise_digits_le.
